@@ -7,6 +7,7 @@ package c19
 import (
 	"bytes"
 	"context"
+	"errors"
 	"fmt"
 	"io"
 	"math"
@@ -39,6 +40,8 @@ type Beh struct {
 	// first bytes of a JSON body and closes the connection (a lying / corrupted length, a download that is cut); to a
 	// HEAD it is the legal answer for a resource of that size (headers only).
 	Len int64 `json:"announced_length,omitempty"`
+	// redirects the target sends before (or instead of) this behaviour; see Redir
+	Redir *Redir `json:"redirect,omitempty"`
 }
 
 var misKinds = []string{"status", "empty", "huge", "bad_status_line", "bad_header", "bad_chunk", "close", "reset", "stall", "short_body", "garbage"}
@@ -151,6 +154,9 @@ type HTTPCase struct {
 	// later connection attempt is refused (DownAfter 0: nothing listens from the start).
 	Down      bool `json:"down,omitempty"`
 	DownAfter int  `json:"down_after,omitempty"`
+	// gun option `redirect: true`: the gun follows redirects (default: it does not). Entries whose behaviour has a
+	// Redir are answered with redirects in either case.
+	Redirect bool `json:"redirect,omitempty"`
 }
 
 func genHTTP(t *rapid.T) HTTPCase {
@@ -171,6 +177,20 @@ func genHTTP(t *rapid.T) HTTPCase {
 		// with keep-alives off every request needs a connection of its own, so any number below n leaves requests
 		// that are refused; 0 = the target is not up at all
 		c.DownAfter = rapid.IntRange(0, n-1).Draw(t, "downAfter")
+	}
+	// Redirecting targets. A target that goes away would refuse follow-up requests of a chain in the middle, so the
+	// two dimensions are not combined. The last entry stays a plain well-behaved exchange.
+	if !c.Down {
+		c.Redirect = rapid.IntRange(0, 2).Draw(t, "redirectOption") == 0
+		oneIn := 8
+		if c.Redirect {
+			oneIn = 2
+		}
+		for i := 0; i < n-1; i++ {
+			if rapid.IntRange(0, oneIn-1).Draw(t, "redirected") == 0 {
+				c.Behs[i].Redir = genRedir(t)
+			}
+		}
 	}
 	return c
 }
@@ -252,10 +272,18 @@ func checkHTTP(c HTTPCase, o *vf.Obs) error {
 		mu.Lock()
 		defer mu.Unlock()
 	}
+	watch := newRedirWatch()
+	scheme := "http" // also for connect-ssl: the TLS there is the tunnel's, the request inside is plain
 	tg.Reset(func(seq int, r *target.Rec) target.Resp {
 		i := entryIndex(r.RequestURI)
 		if i < 0 || i >= len(c.Behs) {
 			return target.Resp{Status: 500}
+		}
+		if !watch.seen(i) {
+			return Beh{Kind: "ok"}.resp()
+		}
+		if resp, ok := c.Behs[i].Redir.answer(fmt.Sprintf("/e%d", i), r.RequestURI, scheme, tg.Addr()); ok {
+			return resp
 		}
 		return c.Behs[i].resp()
 	})
@@ -270,14 +298,22 @@ func checkHTTP(c HTTPCase, o *vf.Obs) error {
 	pool := map[string]any{
 		"id": "p",
 		"gun": map[string]any{"type": gunType(c.Connect), "target": tg.Addr(), "response-header-timeout": "400ms",
-			"disable-keep-alives": !c.KeepAlive, "connect-ssl": c.ConnectSSL},
+			"disable-keep-alives": !c.KeepAlive, "connect-ssl": c.ConnectSSL, "redirect": c.Redirect},
 		"ammo":    map[string]any{"type": "uri", "file": name, "passes": 1},
 		"result":  map[string]any{"type": "phout", "destination": out},
 		"rps":     map[string]any{"type": "once", "times": len(c.Behs) + 5},
 		"startup": map[string]any{"type": "once", "times": c.Instances},
 	}
-	if err := runPool(pool); err != nil {
-		return fmt.Errorf("%v (behaviours %+v)", err, c.Behs)
+	runErr, err := runPoolWatched(pool, watch)
+	var hung *runawayErr
+	if errors.As(err, &hung) {
+		return &runawayErr{why: fmt.Sprintf("%v (%s gun, redirect %v, behaviours %s)", err, gunType(c.Connect), c.Redirect, behsString(c.Behs)), stacks: hung.stacks}
+	}
+	if err == nil && runErr != nil {
+		err = fmt.Errorf("the run was aborted: %v", runErr)
+	}
+	if err != nil {
+		return fmt.Errorf("%v (behaviours %s)", err, behsString(c.Behs))
 	}
 	lines, data, err := readPhout(out)
 	if err != nil {
@@ -295,6 +331,7 @@ func checkHTTP(c HTTPCase, o *vf.Obs) error {
 		reached[entryIndex(r.RequestURI)] = true
 	}
 	mis, goodAfterMis, refused := 0, false, 0
+	rs := redirSeen{}
 	for i, b := range c.Behs {
 		l, ok := byTag[fmt.Sprintf("t%d", i)]
 		if !ok {
@@ -308,6 +345,12 @@ func checkHTTP(c HTTPCase, o *vf.Obs) error {
 				return fmt.Errorf("request %d never reached the target (it went away after %d connections), but its sample says proto=%d net=%d, not a failure\n%s",
 					i, c.DownAfter, l.proto, l.net, data)
 			}
+			continue
+		}
+		if done, err := judgeRedirected(b.Redir, c.Redirect, l, fmt.Sprintf("request %d", i), false, rs); err != nil {
+			return fmt.Errorf("%v (%s gun, %d requests seen by the target for it; behaviours %s)\n%s", err, gunType(c.Connect), watch.count(i), behsString(c.Behs), data)
+		} else if done {
+			mis++ // the exchange did not end with the answer of a well-behaved target
 			continue
 		}
 		if b.Kind == "ok" {
@@ -334,6 +377,8 @@ func checkHTTP(c HTTPCase, o *vf.Obs) error {
 	o.ClassIf(refused > 0 && refused < len(c.Behs), "refused_after_served")
 	o.ClassIf(refused > 0 && c.Connect, "connect_gun_refused")
 	o.ClassIf(refused > 0 && c.ConnectSSL, "connect_ssl_refused")
+	o.ClassIf(c.Redirect, "redirect_option_on")
+	rs.classes(o, gunType(c.Connect)+"_gun")
 	if mis > 0 && goodAfterMis {
 		o.NonTrivial()
 	}
@@ -350,5 +395,5 @@ func gunType(connect bool) string {
 func TestHTTPGun(t *testing.T) {
 	pand.Init()
 	r := vf.Start(t, "C19")
-	vf.Check(r, genHTTP, vf.LoadTolerant(25*time.Millisecond, checkHTTP))
+	vf.Check(r, genHTTP, vf.LoadTolerant(25*time.Millisecond, hangsMustRepeat(checkHTTP)))
 }
